@@ -260,6 +260,10 @@ def record_r3(seed, count, nmax):
             Xin = X.astype(np.int64) if np.all(X == np.round(X)) and rng.integers(0, 2) else X
             det = PELT(cost=mk(), penalty_scale=scale, min_segment_length=m).fit(Xin)
             touched = bool(rng.integers(0, 2))
+            if touched and rng.integers(0, 2):
+                import pandas as pd
+
+                Xin = pd.DataFrame(Xin)   # the same numbers in a frame (default index): what is remembered under X.index shows here
             if touched:
                 touch_same_index(det, Xin)   # the detector has already answered for other values under the same index
                 # ... and is then asked for the scores of Xin directly (transform_scores), before any predict(Xin)
